@@ -8,10 +8,11 @@ THEOREMS = {
         "Dawgs.C06.Props.alias_values_injective",
         "Dawgs.C06.Props.alias_only_lookup",
         "Dawgs.C06.Props.scope_renaming_fixed",
-        "Dawgs.C06.Props.go_eq_fixed_of_disjoint",
-        "Dawgs.C06.Props.scope_renaming_partial",
-        "Dawgs.C06.Props.f10_results",
-        "Dawgs.C06.Props.c06_full_refuted",
+        "Dawgs.C06.Props.c06_full",
+        "Dawgs.C06.Props.shared_eq_live_of_disjoint_old",
+        "Dawgs.C06.Props.scope_renaming_partial_old",
+        "Dawgs.C06.Props.f10_results_old",
+        "Dawgs.C06.Props.c06_full_refuted_old",
         "Dawgs.C06.Props.fallback_lookup_captures",
         "Dawgs.C06.Props.prune_alias_choice_unique",
     ],
@@ -20,6 +21,7 @@ THEOREMS = {
         "Dawgs.C06.Sites.generator_matches_model",
         "Dawgs.C06.Sites.user_ids_only_via_aliased_lookup",
         "Dawgs.C06.Sites.alias_after_fresh_define",
+        "Dawgs.C06.Sites.parameter_path_separate",
         "Dawgs.C06.Sites.define_only_constants",
         "Dawgs.C06.Sites.alias_key_fallback_sites_known",
         "Dawgs.C06.Sites.alias_key_nonuser_are_fallbacks",
@@ -133,14 +135,15 @@ MANIFEST = {
     "technique": "Lean 4 proof of renaming invariance of the identifier scope (all operation sequences; re-keying commutation + generated-name invariant) "
                  "with the shared-table defect refuted by witness, kernel-checked side conditions on a regenerated table of scope accesses, "
                  "and a metamorphic renaming search on the real translator",
-    "text": "Lean: for every sequence of scope operations the translator can issue (DefineNew, Alias after DefineNew, AliasedLookup, Lookup, frames, PruneDefinitions and the "
-            "seven binding patterns of pattern.go/translator.go/unwind.go/projection.go/with.go/quantifiers.go) generated identifiers are fresh, no user spelling is ever a key of "
-            "definitions, alias targets are pairwise distinct, and every result is invariant under any re-keying of user symbols that is injective on the symbols in play "
-            "(alias_only_lookup). Hence renaming invariance holds for namespace-separated keys (scope_renaming_fixed) and for the code as it is when no variable is spelled like "
-            "a parameter (scope_renaming_partial); the unrestricted statement is refuted for the code as it is (c06_full_refuted = F10). The regenerated access-site table proves "
-            "that user-derived identifiers reach definitions only through AliasedLookup and pins the seven Lookup-then-AliasedLookup fallbacks. The rest of the translator is "
-            "searched: every corpus and generated query x 7 adversarial renaming kinds must give the same SQL up to output aliases.",
-    "note": "Proof level applies to the scope model; translator code outside the scope is covered by search only (partial). Three renaming sensitivities of the unchanged tree are "
-            "listed in known_findings.json with specific keys (parameter/variable shared alias table = F10; user alias emitted as an inner CTE column by the aggregate traversal "
+    "text": "Lean: for every sequence of scope operations the translator can issue (DefineNew, Alias / AliasParameter after DefineNew, AliasedLookup, ParameterLookup, Lookup, "
+            "frames, PruneDefinitions and the seven binding patterns of pattern.go/translator.go/unwind.go/projection.go/with.go/quantifiers.go) generated identifiers are fresh, "
+            "no user spelling is ever a key of definitions, alias targets are pairwise distinct, and every result is invariant under any re-keying of user symbols that is "
+            "injective on the symbols in play (alias_only_lookup). Hence FULL renaming invariance holds for the live scope, whose parameters have their own alias table "
+            "(scope_renaming_fixed / c06_full); for the old shared table only the partial statement holds and the full one is refuted (…_old theorems = F10). The regenerated "
+            "access-site table proves that user-derived identifiers reach definitions only through AliasedLookup / ParameterLookup, that the parameter case of the translator uses "
+            "only the parameter table (parameter_path_separate) and pins the seven Lookup-then-AliasedLookup fallbacks. The rest of the translator is searched: every corpus and "
+            "generated query x 7 adversarial renaming kinds must give the same SQL up to output aliases.",
+    "note": "Proof level applies to the scope model; translator code outside the scope is covered by search only (partial). F10 (parameter/variable shared alias table) is fixed "
+            "(entry status fixed); two renaming sensitivities remain known with specific keys (user alias emitted as an inner CTE column by the aggregate traversal "
             "count lowering; path variable spelled like a pruned generated identifier captured by pathCompositeBinding). Trusted: Lean kernel, extractor, harness oracle.",
 }
